@@ -213,7 +213,35 @@ class Engine:
                 m = self.new_map(p)
                 p.heap[m.name] = dict(p.heap[deref(a[0]).name])
                 return m
+        if last in ('cloned', 'copied', 'into_iter', 'iter') and isinstance(deref(a[0]), M.Adt) and deref(a[0]).path == 'Keys':
+            return deref(a[0])
+        if last == 'map' and isinstance(deref(a[0]), M.Adt) and deref(a[0]).path == 'Keys' and len(a) > 1:
+            # a closure that keeps the key (k -> k or k -> (k, ..)) leaves the key set unchanged
+            clo = deref(a[1])
+            nm = clo.path if isinstance(clo, M.Adt) else getattr(clo, 'name', '')
+            loc = re.search(r'closure@([^}]*)', nm)
+            cands = [f for f in self.fns.values() if loc and loc.group(1) in f.param_types.get('_1', '')]
+            if len(cands) == 1:
+                key = z3.String(self.fresh('key'))
+                it2 = self.interp(cands[0], {'_1': M.Ref(clo), '_2': key})
+                q0 = M.Path()
+                q0.heap = dict(p.heap)
+                rets = [q for q in it2.run(path=q0) if q.end == 'return']
+                if len(rets) == 1:
+                    r = rets[0].ret
+                    first = r.items[0] if isinstance(r, M.Tup) and r.items else r
+                    if as_str(first) is not None and as_str(first).eq(key):
+                        return deref(a[0])
+            raise M.MirError('map over the keys of a map with a closure that is not key-preserving')
+        if last == 'collect' and isinstance(deref(a[0]), M.Adt) and deref(a[0]).path == 'Keys':
+            used('HashMap::keys().cloned().collect(): a set with the same keys')
+            src = p.heap[deref(a[0]).fields[0].name]
+            m = self.new_map(p)
+            p.heap[m.name] = {'keys': src['keys'], 'vals': z3.K(S, z3.IntVal(0)), 'len': src['len']}
+            return m
         if 'HashMap' in name or 'HashSet' in name or 'hash_map' in name:
+            if last in ('keys', 'iter') and isinstance(deref(a[0]), MapObj):
+                return M.Adt('Keys', [self.mapof(a[0])])
             if last in ('default', 'new'):
                 used('HashMap/HashSet::new')
                 return self.new_map(p)
